@@ -161,9 +161,9 @@ def escapes(fn, start, is_pass, exempt_edge=None, is_target=None, target_expr=No
                 sure_pass.add(h)
             break
     seen = set()
-    stack = [(bid0, idx0, [(bid0, None)], frozenset())]
+    stack = [(bid0, idx0, [(bid0, None)], frozenset(), frozenset())]
     while stack:
-        bid, after, path, scf = stack.pop()
+        bid, after, path, scf, sw = stack.pop()
         b = fn.bmap[bid]
         items = block_exprs(b)
         passed = False
@@ -174,6 +174,11 @@ def escapes(fn, start, is_pass, exempt_edge=None, is_target=None, target_expr=No
                 if i == after:
                     started = True
                 continue
+            if sw:
+                # an assignment to a remembered switch scrutinee ends the correlation
+                for m_ in walk(x):
+                    if m_.get("k") == "bin" and m_.get("op") in ("=", "+=", "-=", "|=", "&=") and any(ftext(m_["l"]) == t_ for (t_, v_) in sw):
+                        sw = frozenset((t_, v_) for (t_, v_) in sw if t_ != ftext(m_["l"]))
             if is_pass(x):
                 passed = True
                 break
@@ -199,12 +204,29 @@ def escapes(fn, start, is_pass, exempt_edge=None, is_target=None, target_expr=No
                 return path + [(bid, None)]
             continue
         t = b.get("term")
+        swt = None
+        if t is not None and t.get("k") == "switch" and "c" in t:
+            swt = ftext(t["c"])
+            cases = frozenset(sc_.get("case") for sc_ in b["succ"] if "case" in sc_)
+            chosen = dict(sw).get(swt, "unset")
         for k, sc in enumerate(b["succ"]):
             s = sc.get("b")
             if s is None:
                 continue
             if exempt_edge is not None and exempt_edge(b, k):
                 continue
+            nsw = sw
+            if swt is not None:
+                # correlated switches on the same (unassigned) scrutinee: follow only the arm consistent with the arm taken before
+                if "case" in sc:
+                    if chosen != "unset" and (chosen != sc["case"] if not isinstance(chosen, frozenset) else sc["case"] in chosen):
+                        continue
+                    nsw = frozenset([(t_, v_) for (t_, v_) in sw if t_ != swt] + [(swt, sc["case"])])
+                else:
+                    if chosen != "unset" and not isinstance(chosen, frozenset) and chosen in cases:
+                        continue
+                    if chosen == "unset":
+                        nsw = frozenset([(t_, v_) for (t_, v_) in sw if t_ != swt] + [(swt, cases)])
             nscf = scf
             if t is not None and "c" in t and len(b["succ"]) == 2:
                 atoms = set((txt, tr) for (txt, tr, nd) in _cond_atoms(t["c"], k == 0))
@@ -217,10 +239,10 @@ def escapes(fn, start, is_pass, exempt_edge=None, is_target=None, target_expr=No
                     nscf = frozenset(scf | atoms)
                 else:
                     nscf = frozenset()
-            if (s, nscf) in seen:
+            if (s, nscf, nsw) in seen:
                 continue
-            seen.add((s, nscf))
-            stack.append((s, None, path + [(s, t.get("ln") if t else None)], nscf))
+            seen.add((s, nscf, nsw))
+            stack.append((s, None, path + [(s, t.get("ln") if t else None)], nscf, nsw))
     return None
 
 
